@@ -15,9 +15,11 @@ import (
 	"encoding/json"
 	"fmt"
 	"os"
+	"os/exec"
 	"reflect"
 	"sort"
 	"strings"
+	"sync"
 	"time"
 
 	"github.com/zerx-lab/wordZero/pkg/document"
@@ -81,9 +83,11 @@ func c17DataV(variant int) *document.TemplateData {
 		td.SetImageFromData("pic", pngBytes(2, 2, 200), nil)
 	case 2:
 		td.SetImageFromData("pic", jpegBytes(4, 2, 100), nil)
+	case 3:
+		td.SetImageWithDetails("pic", "", pngBytes(2, 2, 200), nil, "alt text of variant 3", "title of variant 3")
 	}
 	// every variant has its own values, so that content left behind by a render with other data is recognisable
-	td.SetVariable("v", []string{"V", "V1", "V2"}[variant])
+	td.SetVariable("v", []string{"V", "V1", "V2", "V3"}[variant])
 	td.SetVariable("w", "W")
 	td.SetCondition("c", true)
 	td.SetList("L", []interface{}{map[string]interface{}{"n": "1"}, map[string]interface{}{"n": "2"}})
@@ -279,6 +283,7 @@ func init() {
 	c17Ops = append(c17Ops,
 		c17Op{name: "Render(d,pic=png)", kind: "render", tn: "d", variant: 1},
 		c17Op{name: "Render(d,pic=jpeg)", kind: "render", tn: "d", variant: 2},
+		c17Op{name: "Render(d,pic=png with alt text and title)", kind: "render", tn: "d", variant: 3},
 		c17Op{name: "Remove(base)", kind: "remove", tn: "base"},
 		c17Op{name: "Remove(c1)", kind: "remove", tn: "c1"},
 		c17Op{name: "ClearCache", kind: "clear"},
@@ -333,8 +338,70 @@ func (v *c17Version) key() string {
 	return s
 }
 
-// c17Expected renders T on a fresh engine after loading exactly its bound chain.
+// c17Expected is the reference render of T: on a fresh engine that loaded exactly T's bound chain,
+// as the FIRST library activity of a FRESH process (so that state a render leaves behind anywhere in
+// the process - an engine, a package-level default - cannot be in the reference as well).  The
+// result is cached per (chain, name, data variant) for the life of this worker process.
 func c17Expected(v *c17Version, name string, variant int) c17Render {
+	var chain []int
+	if v != nil {
+		for _, x := range v.chain() {
+			chain = append(chain, x.src)
+		}
+	}
+	key := fmt.Sprintf("%v|%s|%d", chain, name, variant)
+	c17ExpMu.Lock()
+	defer c17ExpMu.Unlock()
+	if r, ok := c17ExpCache[key]; ok {
+		return r
+	}
+	spec, _ := json.Marshal(c17ExpSpec{Chain: chain, Name: name, Variant: variant})
+	cmd := exec.Command(os.Args[0])
+	cmd.Env = append(os.Environ(), "VCHECK_C17_EXPECT="+string(spec))
+	out, err := cmd.Output()
+	var r c17Render
+	if err != nil || json.Unmarshal(out, &r) != nil {
+		panic(fmt.Sprintf("harness: reference render in a fresh process failed for %s: %v", key, err))
+	}
+	c17ExpCache[key] = r
+	return r
+}
+
+type c17ExpSpec struct {
+	Chain   []int
+	Name    string
+	Variant int
+}
+
+var (
+	c17ExpMu    sync.Mutex
+	c17ExpCache = map[string]c17Render{}
+)
+
+// c17ExpectChild: the fresh process that computes one reference render.
+func c17ExpectChild() bool {
+	s, ok := os.LookupEnv("VCHECK_C17_EXPECT")
+	if !ok {
+		return false
+	}
+	var sp c17ExpSpec
+	if err := json.Unmarshal([]byte(s), &sp); err != nil {
+		os.Exit(3)
+	}
+	var v *c17Version
+	for _, src := range sp.Chain {
+		v = &c17Version{src: src, parent: v}
+	}
+	r := c17ExpectedInProcess(v, sp.Name, sp.Variant)
+	r.doc = nil
+	b, _ := json.Marshal(r)
+	os.Stdout.Write(b)
+	os.Exit(0)
+	return true
+}
+
+// c17ExpectedInProcess renders T on a fresh engine after loading exactly its bound chain.
+func c17ExpectedInProcess(v *c17Version, name string, variant int) c17Render {
 	eng := document.NewTemplateEngine()
 	if v != nil {
 		for _, x := range v.chain() {
@@ -816,7 +883,7 @@ func runC17(r *rep.Run) {
 		depth = 7
 		maxExec = 100000
 	}
-	r.Rule = "part S: BFS over histories of engine calls (8 loads incl. a reloaded base version, two children overriding the same block differently, a second definition under a child's name, a grandchild, a document template (header, footer, logo, image placeholder, table with a nested table, all with placeholders) and a plain template; Render of every name incl. a missing one; two removals; ClearCache) on one real TemplateEngine, deduplicated on the bookkeeping of which version each name holds and which versions it was bound to at load time; every Render in every reached state is compared with the render, on a fresh engine, after loading exactly the bound chain (differential oracle), rendered twice, and the deep dumps of data, template object and base document are compared before/after; part C: every schedule with <= 2 preemptions of 2-3 goroutines calling Load/Render/Remove/ClearCache on one engine (points at every lock operation and at every statement of every function that touches Template/TemplateBlock/TemplateEngine fields), result tuple must be produced by some sequential order of the same calls; part R: same bodies in a free-running -race build; non-trivial = a load, or a render of a present template / a scenario with a branching point"
+	r.Rule = "part S: BFS over histories of engine calls (8 loads incl. a reloaded base version, two children overriding the same block differently, a second definition under a child's name, a grandchild, a document template (header, footer, logo, image placeholder, table with a nested table, all with placeholders) and a plain template; Render of every name incl. a missing one; two removals; ClearCache) on one real TemplateEngine, deduplicated on the bookkeeping of which version each name holds and which versions it was bound to at load time; every Render in every reached state is compared with the render, on a fresh engine in a fresh process, after loading exactly the bound chain (differential oracle), rendered twice, and the deep dumps of data, template object and base document are compared before/after; part C: every schedule with <= 2 preemptions of 2-3 goroutines calling Load/Render/Remove/ClearCache on one engine (points at every lock operation and at every statement of every function that touches Template/TemplateBlock/TemplateEngine fields), result tuple must be produced by some sequential order of the same calls; part R: same bodies in a free-running -race build; non-trivial = a load, or a render of a present template / a scenario with a branching point"
 	r.Bounds["depth"] = depth
 	r.Bounds["ops"] = len(c17Ops)
 	r.Bounds["preemption_bound"] = map[string]int{"statement-level points": 1, "lock operations and function entries": 2}
